@@ -232,10 +232,10 @@ func chartFiles(rng *rand.Rand) (name, version string, files map[string]string) 
 		y.WriteString("annotations:\n  \"files\": \"x\"\n  k: \"...\"\n")
 	}
 	files = map[string]string{
-		"Chart.yaml":                y.String(),
-		"values.yaml":               fmt.Sprintf("replicas: %d\nnote: %q\n", rng.Intn(9), strings.Repeat("v", rng.Intn(40))),
-		"templates/configmap.yaml":  "apiVersion: v1\nkind: ConfigMap\nmetadata:\n  name: {{ .Release.Name }}-cm\ndata:\n  k: {{ .Values.note | quote }}\n",
-		"templates/NOTES.txt":       strings.Repeat("notes ", rng.Intn(30)),
+		"Chart.yaml":                              y.String(),
+		"values.yaml":                             fmt.Sprintf("replicas: %d\nnote: %q\n", rng.Intn(9), strings.Repeat("v", rng.Intn(40))),
+		"templates/configmap.yaml":                "apiVersion: v1\nkind: ConfigMap\nmetadata:\n  name: {{ .Release.Name }}-cm\ndata:\n  k: {{ .Values.note | quote }}\n",
+		"templates/NOTES.txt":                     strings.Repeat("notes ", rng.Intn(30)),
 		fmt.Sprintf("files/f%d.txt", rng.Intn(3)): strings.Repeat(string(rune('a'+rng.Intn(26))), rng.Intn(300)),
 	}
 	return
@@ -613,7 +613,7 @@ func run(cs core.Case, verbose bool) core.Result {
 	// sanity of the reference itself on the original
 	if ok, _ := expectedByLibrary(w.prov, w.sigA.KeyRing, w.base, w.sum); !ok {
 		res.Inconclusive = "reference rejects the untouched provenance file produced by helm (trusted-base anomaly or helm signer defect)"
-		res.Add("signed-by-helm-but-library-rejects", "sign via "+w.via, "the OpenPGP library / reference parse does not accept helm's own signature | prov:\n%s", w.prov)
+		res.Add("signed-by-helm-but-library-rejects", "sign via "+w.via, "the OpenPGP library / reference parse does not accept helm's own signature | prov: %q", w.prov)
 		return res
 	}
 	_, origBlk := libVerdict(w.prov, w.sigA.KeyRing)
@@ -789,9 +789,9 @@ func (c *checker) structural(rng *rand.Rand, origBlk *clearsign.Block) {
 	otherBytes := append(append([]byte(nil), w.archive...), 'x')
 	otherSum := digest(otherBytes)
 	type sm struct {
-		kind   string
-		prov   []byte
-		hard   int // 0 library-classified, +1 must pass, -1 must fail
+		kind string
+		prov []byte
+		hard int // 0 library-classified, +1 must pass, -1 must fail
 	}
 	sigStart := bytes.Index(w.prov, []byte("-----BEGIN PGP SIGNATURE-----"))
 	body, armor := w.prov[:sigStart], w.prov[sigStart:]
@@ -836,7 +836,7 @@ func (c *checker) structural(rng *rand.Rand, origBlk *clearsign.Block) {
 		os.WriteFile(provPath, m.prov, 0o644)
 		expect, blk := expectedByLibrary(m.prov, w.sigA.KeyRing, w.base, w.sum)
 		det := func() string {
-			return fmt.Sprintf("structural mutant %q of the provenance of %s (signed via %s); archive untouched, keyring = signer only | mutant:\n%s", m.kind, w.base, w.via, trunc(string(m.prov), 1400))
+			return fmt.Sprintf("structural mutant %q of the provenance of %s (signed via %s); archive untouched, keyring = signer only | mutant: %s", m.kind, w.base, w.via, trunc(fmt.Sprintf("%q", m.prov), 1600))
 		}
 		hard := m.hard != 0
 		if hard && expect != (m.hard > 0) {
@@ -867,9 +867,9 @@ func (c *checker) structural(rng *rand.Rand, origBlk *clearsign.Block) {
 
 	// ---- keyrings (archive and provenance untouched)
 	type kr struct {
-		kind   string
-		write  func(path string)
-		hard   int
+		kind  string
+		write func(path string)
+		hard  int
 	}
 	krs := []kr{
 		{"signer-plus-others", func(p string) { writeRing(p, false, ks.B, ks.A, ks.C) }, +1},
@@ -900,7 +900,9 @@ func (c *checker) structural(rng *rand.Rand, origBlk *clearsign.Block) {
 				continue
 			}
 		}
-		det := func() string { return fmt.Sprintf("untouched %s and provenance (signed via %s) with keyring variant %q", w.base, w.via, k.kind) }
+		det := func() string {
+			return fmt.Sprintf("untouched %s and provenance (signed via %s) with keyring variant %q", w.base, w.via, k.kind)
+		}
 		out := "reject"
 		if expect {
 			out = "accept"
@@ -942,7 +944,9 @@ func (c *checker) structural(rng *rand.Rand, origBlk *clearsign.Block) {
 		os.MkdirAll(filepath.Dir(np), 0o755)
 		os.WriteFile(np, w.archive, 0o644)
 		os.WriteFile(np+".prov", w.prov, 0o644)
-		det := func() string { return fmt.Sprintf("archive %s stored as %q with its untouched provenance; keyring = signer only", w.base, r.rel) }
+		det := func() string {
+			return fmt.Sprintf("archive %s stored as %q with its untouched provenance; keyring = signer only", w.base, r.rel)
+		}
 		out := "reject"
 		if r.same {
 			out = "accept"
